@@ -486,7 +486,38 @@ def unit_bounded_after_imports(U):
     U.bounded_result("C11.bounded.after_imports", "ordering / counting a database gives the same answers after other imports (all merge strategies, with collisions) ran in the process",
                      "4 strategies x 12 order_by keys x {string, 1-tuple, 2-tuple}", cases, fails)
 
-UNITS = [("bounded.after_imports", unit_bounded_after_imports), ("schema", unit_schema), ("order", unit_order), ("where", unit_where), ("counts", unit_counts), ("bounded", unit_bounded)]
+def unit_bounded_odd_featuretypes(U):
+    """Bounded: a featuretype is compared as a whole string whatever it contains (comma, blank, quote, percent, a number):
+    features_of_type / all_features(featuretype=...) / count_features_of_type / featuretypes() against a full scan"""
+    import gffutils.feature as F_
+    fails, cases = [], 0
+    types = ["match,part", "match", "part", "region, unplaced", "5UTR", "007", "a'b", "50%", "exon;x"]
+    feats = []
+    for i, t in enumerate(types * 2):
+        f = F_.Feature(seqid="c", source="s", featuretype=t, start=10 * i + 1, end=10 * i + 5, strand="+", attributes={"ID": ["f%d" % i]})
+        f.id = "f%d" % i
+        feats.append(f)
+    db = native_db(feats)
+    for t in types + ["match,part,007", "absent"]:
+        want = sorted(f.id for f in feats if f.featuretype == t)
+        for name, fn in (("features_of_type", lambda: db.features_of_type(t)), ("all_features(featuretype)", lambda: db.all_features(featuretype=t)),
+                         ("features_of_type(order_by)", lambda: db.features_of_type(t, order_by="start", reverse=True))):
+            cases += 1
+            got = sorted(f.id for f in fn())
+            if got != want:
+                fails.append({"case": {"call": name, "featuretype": t}, "expected": want, "observed": got})
+        cases += 1
+        if db.count_features_of_type(t) != len(want):
+            fails.append({"case": {"call": "count_features_of_type", "featuretype": t}, "expected": len(want), "observed": db.count_features_of_type(t)})
+    cases += 1
+    pair = sorted(f.id for f in db.features_of_type(["match", "part"]))
+    if pair != sorted(f.id for f in feats if f.featuretype in ("match", "part")):
+        fails.append({"case": {"call": "features_of_type(['match','part'])"}, "expected": "the features of the two types", "observed": pair})
+    if sorted(db.featuretypes()) != sorted(set(types)):
+        fails.append({"case": {"call": "featuretypes()"}, "expected": sorted(set(types)), "observed": sorted(db.featuretypes())})
+    U.bounded_result("C11.bounded.odd_featuretypes", "featuretype filters and counts on types containing separators, quotes, digits == full scan", "9 odd featuretypes x 4 entry points", cases, fails)
+
+UNITS = [("bounded.odd_featuretypes", unit_bounded_odd_featuretypes), ("bounded.after_imports", unit_bounded_after_imports), ("schema", unit_schema), ("order", unit_order), ("where", unit_where), ("counts", unit_counts), ("bounded", unit_bounded)]
 
 
 def replay_file(doc):
